@@ -169,11 +169,13 @@ Print Assumptions C06_adjust_basetime_refuted.
    bytes exactly at t0 + T (2^j - 1), j = 0 .. MAX_RETRANSMIT, then exactly one NACK
    TOO_MANY_RETRIES at t0 + T (2^(MAX_RETRANSMIT+1) - 1); afterwards the queue is empty and the
    reported wait is 0.  T = coap_calc_timeout(settings, r) is computed once. *)
-Theorem C06_schedule : forall t0 base0 k s m b cfg r fuel,
+Theorem C06_schedule : forall t0 base0 k s m b cfg r fuel ns tbl0,
   let T := fp_calc_timeout (rc_at_ip cfg) (rc_at_fp cfg) (rc_arf_ip cfg) (rc_arf_fp cfg) r in
   let mx := rc_max cfg in
   1 <= T -> 1 <= mx <= 255 -> T * 2 ^ mx < 4294967296 -> (Z.to_nat mx + 1 < fuel)%nat ->
-  let (st1, o1) := rt_send (rt_mk_state t0 base0 [] k) s m b cfg r in
+  (* the session is idle: NSTART ns, no Confirmable in flight, none waiting *)
+  1 <= ns -> rt_sget s tbl0 = rt_mk_sinfo ns 0 [] ->
+  let (st1, o1) := rt_send (rt_mk_state t0 base0 [] k tbl0) s m b cfg r in
   let (st2, o2) := rt_punctual fuel st1 in
   filter rt_is_tx_nack (o1 ++ o2) =
     map (fun j => RoTx (rt_sched_time t0 T j) k s b (Z.of_nat j) T) (seq 0 (S (Z.to_nat mx))) ++
@@ -187,9 +189,9 @@ Print Assumptions C06_schedule.
    messages, answers of the peer): transmission number i of a message carries retransmit
    counter i, and transmission i+1 comes with the same T, never earlier than T * 2^i after
    transmission i ... *)
-Theorem C06_spacing : forall t0 evs u,
-  Forall rt_ev_ok evs ->
-  let tr := snd (rt_run (rt_init t0) evs) in
+Theorem C06_spacing : forall t0 nst evs u,
+  rt_nst_ok nst -> Forall rt_ev_ok evs ->
+  let tr := snd (rt_run (rt_init t0 nst) evs) in
   forall i t c T, nth_error (rt_tproj u tr) i = Some (t, c, T) ->
     c = Z.of_nat i /\
     forall t' c' T', nth_error (rt_tproj u tr) (S i) = Some (t', c', T') ->
@@ -200,10 +202,10 @@ Print Assumptions C06_spacing.
 (* ... the deadline of every queued message is its last transmission + T * 2^retransmit_cnt
    (C06_wait_sound: a prepare call leaves nothing behind that is due, so the retransmission
    happens at the first prepare call or datagram arrival at or after that deadline) ... *)
-Theorem C06_deadline_law : forall t0 evs d n,
-  Forall rt_ev_ok evs ->
-  let st := fst (rt_run (rt_init t0) evs) in
-  let tr := snd (rt_run (rt_init t0) evs) in
+Theorem C06_deadline_law : forall t0 nst evs d n,
+  rt_nst_ok nst -> Forall rt_ev_ok evs ->
+  let st := fst (rt_run (rt_init t0 nst) evs) in
+  let tr := snd (rt_run (rt_init t0 nst) evs) in
   In (d, n) (sq_abs (rs_base st) (rs_q st)) ->
   exists l t, rt_tproj (qn_uid n) tr = l ++ [(t, qn_cnt n, qn_timeout n)] /\
               d = t + qn_timeout n * 2 ^ qn_cnt n.
@@ -212,38 +214,64 @@ Print Assumptions C06_deadline_law.
 
 (* ... giving up is never early either: a NACK TOO_MANY_RETRIES comes no sooner than T * 2^cnt
    after the last transmission (cnt = MAX_RETRANSMIT by C06_one_outcome) ... *)
-Theorem C06_giveup_not_early : forall t0 evs tr1 t u s m c mx tr2,
-  Forall rt_ev_ok evs ->
-  snd (rt_run (rt_init t0) evs) = tr1 ++ RoNack t u s rt_NACK_TOO_MANY_RETRIES m c mx :: tr2 ->
+Theorem C06_giveup_not_early : forall t0 nst evs tr1 t u s m c mx tr2,
+  rt_nst_ok nst -> Forall rt_ev_ok evs ->
+  snd (rt_run (rt_init t0 nst) evs) = tr1 ++ RoNack t u s rt_NACK_TOO_MANY_RETRIES m c mx :: tr2 ->
   exists l tl T, rt_tproj u tr1 = l ++ [(tl, c, T)] /\ tl + T * 2 ^ c <= t.
 Proof. exact rt_giveup_not_early. Qed.
 Print Assumptions C06_giveup_not_early.
 
+(* ... a Confirmable that finds no free NSTART slot waits: it has not been transmitted; its
+   timeout is computed THEN (coap_session_delay_pdu: the second place where the byte is drawn) from
+   the same settings, and when a slot is released it goes out and is from there on subject to
+   C06_spacing / C06_deadline_law / C06_tx_provenance like every other message ... *)
+Theorem C06_held_not_sent : forall t0 nst evs n,
+  rt_nst_ok nst -> Forall rt_ev_ok evs ->
+  let st := fst (rt_run (rt_init t0 nst) evs) in
+  let tr := snd (rt_run (rt_init t0 nst) evs) in
+  In n (rt_held (rs_sess st)) -> rt_tproj (qn_uid n) tr = [].
+Proof. exact rt_held_not_sent. Qed.
+Print Assumptions C06_held_not_sent.
+
+Theorem C06_T_drawn_when_held : forall st s m b cfg r,
+  let si := rt_sget s (rs_sess st) in
+  si_nstart si <= si_active si ->
+  existsb (fun n => qn_mid n =? m) (si_hold si) = false ->
+  let st' := fst (rt_send st s m b cfg r) in
+  snd (rt_send st s m b cfg r) = [RoSent m] /\ rs_q st' = rs_q st /\
+  si_hold (rt_sget s (rs_sess st')) =
+    si_hold si ++ [sq_mk_node (rs_uid st) s m (-1)
+                     (fp_calc_timeout (rc_at_ip cfg) (rc_at_fp cfg) (rc_arf_ip cfg) (rc_arf_fp cfg) r)
+                     (rc_max cfg) b].
+Proof. exact rt_send_held_spec. Qed.
+Print Assumptions C06_T_drawn_when_held.
+
 (* ... and T is computed once, from the session's settings and one random byte, when the
    message is accepted *)
 Theorem C06_T_drawn_once : forall st s m b cfg r,
+  si_active (rt_sget s (rs_sess st)) < si_nstart (rt_sget s (rs_sess st)) ->
   snd (rt_send st s m b cfg r) =
   [RoTx (rs_now st) (rs_uid st) s b 0
         (fp_calc_timeout (rc_at_ip cfg) (rc_at_fp cfg) (rc_arf_ip cfg) (rc_arf_fp cfg) r);
    RoSent m].
-Proof. exact (fun st s m b cfg r => eq_refl). Qed.
+Proof. exact rt_send_free_spec. Qed.
 Print Assumptions C06_T_drawn_once.
 
 (* Every datagram of every trace is the unchanged byte string of a submitted message, sent on the
    session it was submitted on, scheduled with T = coap_calc_timeout(that session's settings, the
    byte drawn at submission) - so (C06_timeout_range) every T of every trace lies in
    [ACK_TIMEOUT, ACK_TIMEOUT * ACK_RANDOM_FACTOR] of its session, at Q.6 resolution. *)
-Theorem C06_tx_provenance : forall t0 evs t u s b c T,
-  In (RoTx t u s b c T) (snd (rt_run (rt_init t0) evs)) ->
+Theorem C06_tx_provenance : forall t0 nst evs t u s b c T,
+  In (RoTx t u s b c T) (snd (rt_run (rt_init t0 nst) evs)) ->
   exists m cfg r, In (RtSend s m b cfg r) evs /\ T = rt_cfg_T cfg r.
 Proof. exact rt_tx_provenance. Qed.
 Print Assumptions C06_tx_provenance.
 
-Theorem C06_tx_timeout_in_range : forall t0 evs t u s b c T,
+Theorem C06_tx_timeout_in_range : forall t0 nst evs t u s b c T,
   (forall s' m b' cfg r, In (RtSend s' m b' cfg r) evs ->
      fp_setting_ok (rc_at_ip cfg) (rc_at_fp cfg) /\ fp_setting_ok (rc_arf_ip cfg) (rc_arf_fp cfg) /\
      0 <= r <= 255) ->
-  In (RoTx t u s b c T) (snd (rt_run (rt_init t0) evs)) ->
+  In (RoTx t u s b c T) (snd (rt_run (rt_init t0 nst) evs)) ->
   exists m cfg r, In (RtSend s m b cfg r) evs /\
     fp_lo (fp_Q (rc_at_ip cfg) (rc_at_fp cfg)) <= T <=
     fp_hi (fp_Q (rc_at_ip cfg) (rc_at_fp cfg)) (fp_Q (rc_arf_ip cfg) (rc_arf_fp cfg)) /\
@@ -259,22 +287,23 @@ Print Assumptions C06_tx_timeout_in_range.
    retransmit_cnt + 1 <= max_retransmit + 1 times), or transmissions of the same bytes followed by
    exactly one outcome: removed by an ACK, or one NACK call with reason RST, or one with reason
    TOO_MANY_RETRIES after exactly max_retransmit retransmissions. *)
-Theorem C06_one_outcome : forall t0 evs u,
-  Forall rt_ev_ok evs ->
-  let (st, tr) := rt_run (rt_init t0) evs in
+Theorem C06_one_outcome : forall t0 nst evs u,
+  rt_nst_ok nst -> Forall rt_ev_ok evs ->
+  let (st, tr) := rt_run (rt_init t0 nst) evs in
   rt_shape (rt_proj u tr) /\
-  (forall n, In n (rt_nodes (rs_q st)) -> qn_uid n = u ->
-     rt_proj u tr = repeat (PTx (qn_bytes n)) (S (Z.to_nat (qn_cnt n))) /\
-     0 <= qn_cnt n <= qn_max n) /\
-  (~ In u (map qn_uid (rt_nodes (rs_q st))) -> rt_proj u tr = [] \/ rt_closed (rt_proj u tr)).
+  (* pending = queued or waiting for an NSTART slot (counter -1: not transmitted yet) *)
+  (forall n, In n (rt_live st) -> qn_uid n = u ->
+     rt_proj u tr = repeat (PTx (qn_bytes n)) (Z.to_nat (qn_cnt n + 1)) /\
+     -1 <= qn_cnt n <= qn_max n) /\
+  (~ In u (map qn_uid (rt_live st)) -> rt_proj u tr = [] \/ rt_closed (rt_proj u tr)).
 Proof. exact rt_one_outcome. Qed.
 Print Assumptions C06_one_outcome.
 
 (* after its outcome a message never appears again, whatever happens later *)
-Theorem C06_nothing_after_outcome : forall t0 e1 e2 u,
-  Forall rt_ev_ok (e1 ++ e2) ->
-  rt_closed (rt_proj u (snd (rt_run (rt_init t0) e1))) ->
-  rt_proj u (snd (rt_run (rt_init t0) (e1 ++ e2))) = rt_proj u (snd (rt_run (rt_init t0) e1)).
+Theorem C06_nothing_after_outcome : forall t0 nst e1 e2 u,
+  rt_nst_ok nst -> Forall rt_ev_ok (e1 ++ e2) ->
+  rt_closed (rt_proj u (snd (rt_run (rt_init t0 nst) e1))) ->
+  rt_proj u (snd (rt_run (rt_init t0 nst) (e1 ++ e2))) = rt_proj u (snd (rt_run (rt_init t0 nst) e1)).
 Proof. exact rt_nothing_after_outcome. Qed.
 Print Assumptions C06_nothing_after_outcome.
 
@@ -293,12 +322,15 @@ Theorem C06_known_ack_rst : forall st s m t n q',
   (exists l1 l2 d, sq_abs (rs_base st) (rs_q st) = l1 ++ (d, n) :: l2 /\
                    sq_abs (rs_base st) q' = l1 ++ l2 /\
                    Forall (fun x => sq_match s m (snd x) = false) l1) /\
+  (* the freed NSTART slot goes to a waiting message of that session (if any), then a prepare *)
   rt_step st (RtAck s m) =
-    (fst (rt_fire_all (rt_set_q st q')), RoAcked (rs_now st) (qn_uid n) :: snd (rt_fire_all (rt_set_q st q'))) /\
+    (let (st1, o1) := rt_free_slot (rt_set_q st q') s in
+     let (st2, o2) := rt_fire_all st1 in
+     (st2, RoAcked (rs_now st) (qn_uid n) :: o1 ++ o2)) /\
   rt_step st (RtRst s m) =
-    (fst (rt_fire_all (rt_set_q st q')),
-     RoNack (rs_now st) (qn_uid n) (qn_sess n) rt_NACK_RST (qn_mid n) (qn_cnt n) (qn_max n)
-       :: snd (rt_fire_all (rt_set_q st q'))).
+    (let (st1, o1) := rt_free_slot (rt_set_q st q') s in
+     let (st2, o2) := rt_fire_all st1 in
+     (st2, o1 ++ RoNack (rs_now st) (qn_uid n) (qn_sess n) rt_NACK_RST (qn_mid n) (qn_cnt n) (qn_max n) :: o2)).
 Proof. exact rt_known_ack_rst. Qed.
 Print Assumptions C06_known_ack_rst.
 
@@ -310,11 +342,13 @@ Theorem C06_disconnect : forall st s reason,
   sq_abs (rs_base st') (rs_q st') =
     filter (fun e => negb (rt_sess_match s (snd e))) (sq_abs (rs_base st) (rs_q st)) /\
   rs_now st' = rs_now st /\
-  let rm := filter (rt_sess_match s) (rt_nodes (rs_q st)) in
+  (* first the messages of the session that wait for a slot, then its queued ones *)
+  let rm := si_hold (rt_sget s (rs_sess st)) ++ filter (rt_sess_match s) (rt_nodes (rs_q st)) in
   o = match rm with
       | [] => [RoNackNoPdu (rs_now st) s reason 0]
       | _ => map (rt_nack_of (rs_now st) reason) rm
-      end.
+      end /\
+  si_hold (rt_sget s (rs_sess st')) = [] /\ si_active (rt_sget s (rs_sess st')) = 0.
 Proof. exact rt_disconnect_spec. Qed.
 Print Assumptions C06_disconnect.
 
@@ -342,9 +376,9 @@ Print Assumptions C06_delete_linked_node.
 (* In every reachable state a prepare call fires everything that is due (its loop bound is never
    hit) and reports 0 iff nothing is pending, else the distance to the earliest pending deadline,
    cut to 32 bits - never more than that distance. *)
-Theorem C06_wait_sound : forall t0 evs,
-  Forall rt_ev_ok evs ->
-  let st := fst (rt_run (rt_init t0) evs) in
+Theorem C06_wait_sound : forall t0 nst evs,
+  rt_nst_ok nst -> Forall rt_ev_ok evs ->
+  let st := fst (rt_run (rt_init t0 nst) evs) in
   let (st', o) := rt_tick st in
   exists o' w hd, o = o' ++ [RoWait (rs_now st) w hd] /\ ~ In RoFuel o' /\
                   rs_now st' = rs_now st /\ rt_wait_ok st' w hd.
